@@ -13,7 +13,7 @@ cur = None
 for sid, d in mx.items():
     if rnd(sid) != cur:
         cur = rnd(sid)
-for r in (1, 2, 3, 4, 5):
+for r in sorted({rnd(sid) for sid in mx}):
     lines.append(f"    # ---- round {r}")
     row = []
     for sid, d in mx.items():
